@@ -16,6 +16,7 @@ import (
 	"sort"
 	"strings"
 	"sync"
+	"unsafe"
 )
 
 // ---------------------------------------------------------------- ops
@@ -249,6 +250,8 @@ type Sched struct {
 	// last (non-preemptive round robin).
 	RoundRobin bool
 	lastTid    int
+	addrClass map[uintptr]uint32 // (struct type, field) class of every field address seen in this run
+	accs      []MemAcc // plain accesses noted by the transition that is running (inside the window)
 	TraceAll  bool
 	TickNow   bool // every clock read advances virtual time by 1 ns (set per run by a harness)
 	Trace     []string
@@ -283,6 +286,8 @@ func Run(choose Chooser, maxSteps int, body func()) (failure string) {
 	S.external = map[uintptr]bool{}
 	S.choose = choose
 	S.Steps = 0
+	S.accs = nil
+	S.addrClass = map[uintptr]uint32{}
 	S.TickNow = false
 	S.MaxStep = maxSteps
 	S.Failure = ""
@@ -560,6 +565,55 @@ func enabledAlts() []Alt {
 		}
 	}
 	return alts
+}
+
+// MemAcc is a plain (unsynchronised) access to a struct field, noted by instrumented code.
+type MemAcc struct {
+	Addr  uintptr
+	Class uint32 // identifies (struct type, field); stable across executions, unlike Addr
+	Write bool
+}
+
+// Acc notes a plain access of the running transition to the field at base+off. Only the
+// explorers use it (as part of the transition's footprint); it is not a decision point.
+func Acc(base unsafe.Pointer, off uintptr, write bool, class uint32) {
+	if !S.Active || !S.Explore || base == nil {
+		return
+	}
+	a := uintptr(base) + off
+	for i := range S.accs {
+		if S.accs[i].Addr == a {
+			if write {
+				S.accs[i].Write = true
+			}
+			return
+		}
+	}
+	S.accs = append(S.accs, MemAcc{a, class, write})
+	S.addrClass[a] = class
+}
+
+// Cls only tells the runtime which (struct type, field) the word at base+off is; emitted
+// where instrumented code passes the field's address to an atomic operation, so that the
+// atomic operation can be related to plain accesses of the same field seen in other runs.
+func Cls(base unsafe.Pointer, off uintptr, class uint32) {
+	if !S.Active || !S.Explore || base == nil {
+		return
+	}
+	S.addrClass[uintptr(base)+off] = class
+}
+
+// ClassOf returns the class of a field address seen in this run.
+func ClassOf(a uintptr) (uint32, bool) {
+	c, ok := S.addrClass[a]
+	return c, ok
+}
+
+// TakeAccs returns and clears the accesses noted since the last call.
+func TakeAccs() []MemAcc {
+	r := S.accs
+	S.accs = nil
+	return r
 }
 
 // VRT_TRACE=1 prints every executed transition to stderr (debugging aid).
